@@ -242,3 +242,4 @@ cell_val_month = cell_val_dow = row_frame
 
 def string(s):
     return s
+renamed = path_depends_on = row_frame
